@@ -397,8 +397,7 @@ func runC05(c *kit.Ctx) {
 		le := kit.NewLockEnv(p)
 		clientT := p.Named("region", "client")
 		var sites []ssa.CallInstruction
-		sites = append(sites, kit.Calls(send, kit.M("region", "*client", "write"))...)
-		sites = append(sites, kit.Calls(send, "(*net.Buffers).WriteTo")...)
+		sites = append(sites, connWrites(p, send)...)
 		var common map[*types.Var]bool
 		for _, s := range sites {
 			held := le.At(s)
@@ -457,8 +456,11 @@ func runC05(c *kit.Ctx) {
 			}
 			c.Check(good, lit, "hello-before-goroutines", lit.Pos(), "sendHello dominates both go statements", "a connection goroutine can start before the hello has been written")
 		}
-		for _, s := range callersOf(p, kit.M("region", "*client", "write")) {
-			c.Check(s.Parent() == hello || s.Parent() == send, s.Parent(), "caller-of-write", s.Pos(), "write called from sendHello/send", "unexpected caller of write: bytes can be put on the connection outside the framing code")
+		writeFn := p.Func("region", "client", "write")
+		for _, fn := range p.Funcs {
+			for _, s := range connWrites(p, fn) {
+				c.Check(fn == hello || fn == send || fn == writeFn, fn, "caller-of-write", s.Pos(), "bytes are put on the connection in sendHello/send (or the write helper they call)", "unexpected caller of write: bytes can be put on the connection outside the framing code")
+			}
 		}
 	}
 
